@@ -15,7 +15,7 @@ import (
 	"verifharness/internal/hx"
 )
 
-const rule = "random Directory DAGs (shared subtrees, depth <= 8, empty directories, 4 digest functions; one in seven directories malformed: invalid name, duplicate within/across the three lists, bad digest, unusable symlink target; garbage and absent blobs) merged with the real MergeDirectoryContents and explored in random order through virtual.Directory, interleaved with every kind of write attempt on CAS files, local remove/create/mkdir, VirtualRename/VirtualLink between random places (rename of a fresh local file over a CAS file, of never explored directories, onto existing entries), ApplyGetContainingDigests queries, further merges and storage faults; every second case merges with the real Bloom filter access monitor (NewAccessMonitoringInitialContentsFetcher); then the same digest merged into a fresh root; in about a fifth of the cases a three-party interleaving is forced deterministically (T1 keeps a lazily loaded directory locked behind a suspended GetDirectory, T2's lookup of it with change ID attributes drops the parent lock and waits, the name is re-bound by two renames, storage resumes: the lookup must return the directory now under the name); in a third of the cases 2-5 goroutines list every directory of the fresh root concurrently, each in its own order; separate histories drive the caching directory fetcher (same digest as Directory and as Tree root, small capacities, base failures) the real hard-linking file fetcher (single GetFile calls into temporary directories, cache entries deleted / replaced by directories behind its back, CAS misses, small file and byte limits; compared with the model of its bookkeeping after every call) and (monitor only) sequences of MergeDirectoryContents of the eager naiveBuildDirectory on temporary directories sharing one hard-link cache, with the same faults between actions, judged by: error, or on-disk tree = requested tree. Non-trivial = (>= 3 lazily fetched directories, a merge succeeded, >= 1 write attempt on a CAS file was refused, and a fault was hit or a directory that cannot be loaded was accessed or a local modification succeeded) or (cache history with >= 1 hit and >= 1 miss) or (naive history with >= 1 successful materialisation); distinct = hash of the history"
+const rule = "random Directory DAGs (shared subtrees, depth <= 8, empty directories, 4 digest functions; one in seven directories malformed: invalid name, duplicate within/across the three lists, bad digest, unusable symlink target; garbage and absent blobs) merged with the real MergeDirectoryContents and explored in random order through virtual.Directory, interleaved with every kind of write attempt on CAS files, local remove/create/mkdir, VirtualRename/VirtualLink between random places (rename of a fresh local file over a CAS file, of never explored directories, onto existing entries), ApplyGetContainingDigests queries, further merges and storage faults; every second case merges with the real Bloom filter access monitor (NewAccessMonitoringInitialContentsFetcher); then the same digest merged into a fresh root; in about a fifth of the cases a three-party interleaving is forced deterministically (T1 keeps a lazily loaded directory locked behind a suspended GetDirectory, T2's lookup of it with change ID attributes drops the parent lock and waits, the name is re-bound by two renames, storage resumes: the lookup must return the directory now under the name); in a third of the cases 2-5 goroutines list every directory of the fresh root concurrently, each in its own order; separate histories drive the caching directory fetcher (same digest as Directory and as Tree root, small capacities, base failures) the real hard-linking file fetcher (single GetFile calls into temporary directories, cache entries deleted / replaced by directories behind its back, CAS misses, small file and byte limits; compared with the model of its bookkeeping after every call) and (monitor only) sequences of MergeDirectoryContents of the eager naiveBuildDirectory on temporary directories sharing one hard-link cache, with the same faults between actions, judged by: error, or on-disk tree = requested tree; each such merge is repeated into a fresh directory with 0-2 injected failing calls (storage read of a Directory/file blob by digest; Mkdir/EnterDirectory/Symlink/OpenAppend/Chtimes by path, through a wrapper around the real directory handles) and compared with Model/NaiveDir.lean (drv_naivedir): ok/error, the error class and the listing of the tree left behind whenever no download failed, plus the monitor: OK => no issued call failed, tree = requested tree, nothing outside the build directory changed. Non-trivial = (>= 3 lazily fetched directories, a merge succeeded, >= 1 write attempt on a CAS file was refused, and a fault was hit or a directory that cannot be loaded was accessed or a local modification succeeded) or (cache history with >= 1 hit and >= 1 miss) or (naive history with >= 1 successful materialisation); distinct = hash of the history"
 
 func nontrivial(o outcome) bool {
 	f := o.flags
@@ -82,7 +82,7 @@ func main() {
 		if out.failed() {
 			report(f.History, out)
 		}
-		res.ModelLines = drv.Lines
+		res.ModelLines = drv.Lines + naiveModelLines()
 		res.Write(o)
 		return
 	}
@@ -120,6 +120,6 @@ func main() {
 			report(lines, out)
 		}
 	}
-	res.ModelLines = drv.Lines
+	res.ModelLines = drv.Lines + naiveModelLines()
 	res.Write(o)
 }
